@@ -126,6 +126,253 @@ def check_case(case):
     return None, info
 
 
+def scan_result(res):
+    """None, or what the sanitized run reported."""
+    if res["rc"] == "timeout":
+        return "the sanitized stepper did not finish within 60 s"
+    err = res["stderr"]
+    for key, what in (("ERROR: AddressSanitizer", "AddressSanitizer error"),
+                      ("ERROR: LeakSanitizer", "LeakSanitizer: leaked storage"),
+                      ("runtime error:", "UndefinedBehaviorSanitizer error"),
+                      ("leaked reference", "shutdown reports a leaked reference"),
+                      ("Fortran runtime error", "Fortran run-time error")):
+        if key in err:
+            lines = [l.strip() for l in err.split("\n") if l.strip()]
+            pick = [l for l in lines if key in l or l.startswith("SUMMARY") or "leaked reference" in l
+                    or "remaining refcount" in l or " in dagrt_" in l or " in drtf_" in l or "MAIN__" in l]
+            return "%s: %s" % (what, " | ".join(pick[:5])[:400])
+    if res["rc"] != 0:
+        return "sanitized program ended with status %s: %s" % (res["rc"], err[-300:])
+    if err.strip():
+        return "program wrote to stderr: %s" % err.strip()[:300]
+    return None
+
+
+# ---------------------------------------------------------------- two user types of different Fortran structure
+
+# One component is a structure with a pointer member (a value owns an inner block besides the structure itself),
+# the other a plain array; their identifiers are drawn so that either may sort first.
+TT_NAMES = [("a_nested", "b_plain"), ("n_nested", "b_plain"), ("y", "z_nested"), ("u_nested", "v_plain")]
+
+
+@st.composite
+def twotype_cases(draw):
+    nested, plain = draw(st.sampled_from(TT_NAMES))
+    if "nested" not in nested:
+        nested, plain = plain, nested
+    comps = [nested, plain]
+    defined = {c: {"<state>" + c} for c in comps}
+    coef = st.sampled_from([0.5, 2, -1, 0.25, 3])
+
+    def vec(c, need_temp=False):
+        cands = sorted(defined[c] - ({"<state>" + c} if need_temp else set()))
+        return draw(st.sampled_from(cands)) if cands else None
+
+    def block(depth, n):
+        ops = []
+        for _ in range(n):
+            c = draw(st.sampled_from(comps))
+            k = draw(st.sampled_from(["call", "call", "update", "temp", "temp", "save", "move", "yield", "yield", "selfupd",
+                                      "if", "if", "exit"]))
+            if k == "call":
+                tgt = draw(st.sampled_from(["k_" + c, "k2_" + c]))
+                ops.append(["call", tgt, c, vec(c)])
+                defined[c].add(tgt)
+            elif k == "update":
+                ops.append(["lin", "<state>" + c, [[1, "<state>" + c], [draw(coef), vec(c)]]])
+            elif k == "temp":
+                tgt = draw(st.sampled_from(["t_" + c, "t2_" + c]))
+                terms = [[draw(coef), vec(c)]]
+                if draw(st.booleans()):
+                    terms.append([draw(coef), vec(c)])
+                ops.append(["lin", tgt, terms])
+                defined[c].add(tgt)
+            elif k == "save":
+                ops.append(["move", "<p>old_" + c, vec(c)])
+                defined[c].add("<p>old_" + c)
+            elif k == "move":
+                src = vec(c, need_temp=True)
+                if src is not None:
+                    ops.append(["move", draw(st.sampled_from(["<state>" + c, "t_" + c, "m_" + c])), src])
+                    defined[c].add(ops[-1][1])
+            elif k == "yield":
+                ops.append(["yield", c, vec(c)])
+            elif k == "selfupd":
+                src = vec(c, need_temp=True)
+                if src is not None and not src.startswith("<p>"):
+                    ops.append(["lin", src, [[1, src], [draw(coef), vec(c)]]])
+            elif k == "if" and depth < 2:
+                cond = draw(st.sampled_from(["<t> < 1.5", "<t> >= 1.5", "<t> < 0.5", "<t> > 2.5"]))
+                saved = {x: set(v) for x, v in defined.items()}
+                then = block(depth + 1, draw(st.integers(1, 3)))
+                after_then = {x: set(v) for x, v in defined.items()}
+                for x in comps:
+                    defined[x] = set(saved[x])
+                els = block(depth + 1, draw(st.integers(1, 2))) if draw(st.booleans()) else None
+                for x in comps:
+                    defined[x] = (after_then[x] & defined[x]) if els is not None else set(saved[x])
+                ops.append(["if", cond, then, els])
+            elif k == "exit" and depth > 0:
+                ops.append([draw(st.sampled_from(["fail", "restart"]))])
+        return ops
+
+    # kind inference learns the type of a state component only from an assignment to it
+    prologue = []
+    for c in comps:
+        prologue.append(["call", "k_" + c, c, "<state>" + c])
+        prologue.append(["lin", "<state>" + c, [[1, "<state>" + c], [draw(coef), "k_" + c]]])
+        defined[c].add("k_" + c)
+    body = prologue + block(0, draw(st.integers(3, 9)))
+    for c in comps:
+        if draw(st.integers(0, 3)) > 0:
+            body.append(["yield", c, "<state>" + c])
+    body.append(["advance"])
+    return {"nested": nested, "plain": plain, "body": body, "steps": draw(st.integers(2, 5)),
+            "len_nested": draw(st.integers(1, 4)), "len_plain": draw(st.integers(1, 4))}
+
+
+def twotype_build(case):
+    from pymbolic import var
+    from dagrt.language import CodeBuilder, DAGCode
+
+    def emit(cb, ops):
+        for op in ops:
+            k = op[0]
+            if k == "call":
+                cb.assign(var(op[1]), var("<func>f_" + op[2])(var("<t>"), var(op[3])))
+            elif k == "lin":
+                e = 0
+                for co, v in op[2]:
+                    e = e + (var(v) if co == 1 else co * var(v))
+                cb.assign(var(op[1]), e)
+            elif k == "move":
+                cb.assign(var(op[1]), var(op[2]))
+            elif k == "yield":
+                cb.yield_state(var(op[2]), op[1], var("<t>"), "final")
+            elif k == "if":
+                with cb.if_(op[1]):
+                    emit(cb, op[2])
+                if op[3]:
+                    with cb.else_():
+                        emit(cb, op[3])
+            elif k == "fail":
+                cb.fail_step()
+            elif k == "restart":
+                cb.restart_step()
+            elif k == "advance":
+                cb.assign(var("<t>"), var("<t>") + var("<dt>"))
+    with CodeBuilder(name="main") as cb:
+        emit(cb, case["body"])
+    return DAGCode.from_phases_list([cb.as_execution_phase("main")], "main")
+
+
+def twotype_generate(case, dag):
+    import dagrt.codegen.fortran as f
+    from dagrt.function_registry import base_function_registry, register_ode_rhs
+    from vlib import kinds as K
+    nested, plain = case["nested"], case["plain"]
+    freg = base_function_registry
+    freg = register_ode_rhs(freg, nested, identifier="<func>f_" + nested, input_names=("y",))
+    freg = freg.register_codegen("<func>f_" + nested, "fortran", f.CallCode("""
+        ${result}%v = -2*${y}%v
+        """))
+    freg = register_ode_rhs(freg, plain, identifier="<func>f_" + plain, input_names=("y",))
+    freg = freg.register_codegen("<func>f_" + plain, "fortran", f.CallCode("""
+        ${result} = -3*${y}
+        """))
+    cg = f.CodeGenerator(
+        "m", function_registry=freg,
+        module_preamble="""
+        type nested_t
+          real*8, pointer :: v(:)
+        end type
+        """,
+        user_type_map={
+            nested: f.StructureType("nested_t", (
+                ("v", f.PointerType(f.ArrayType((case["len_nested"],), f.BuiltinType("real*8")))),)),
+            plain: f.ArrayType((case["len_plain"],), f.BuiltinType("real*8")),
+        })
+    text, _ = K.quiet(cg, dag)
+    return cg, text
+
+
+def twotype_driver(case, cg, text):
+    nm = cg.name_manager
+    na, nb = nm.name_global("<state>" + case["nested"]), nm.name_global("<state>" + case["plain"])
+    return """
+program driver
+  use m, only: dagrt_state_type, nested_t, v_initialize => initialize, v_run => run, v_shutdown => shutdown
+  implicit none
+  type(dagrt_state_type), target :: st
+  type(dagrt_state_type), pointer :: sp
+  type(nested_t) :: a0
+  real*8, dimension(%(lb)d) :: b0
+  real*8, dimension(%(la)d), target :: a0_storage
+  integer k
+  sp => st
+  a0%%v => a0_storage
+  a0%%v = 1
+  b0 = 2
+  call v_initialize(dagrt_state=sp, %(na)s=a0, %(nb)s=b0, dagrt_t=0d0, dagrt_dt=1d0)
+  do k = 1, %(steps)d
+    call v_run(dagrt_state=sp)
+  end do
+  call v_shutdown(dagrt_state=sp)
+  write(*,'(A)') 'DONE'
+  flush(6)
+end program
+""" % dict(la=case["len_nested"], lb=case["len_plain"], na=na, nb=nb, steps=case["steps"])
+
+
+def check_twotype(case):
+    info = {}
+    try:
+        dag = twotype_build(case)
+    except Exception as e:
+        return "CodeBuilder raised %s: %s" % (type(e).__name__, e), info
+    try:
+        cg, text = twotype_generate(case, dag)
+    except Exception as e:
+        info["skip"] = "generator raised: %s: %s" % (type(e).__name__, str(e)[:80])
+        return None, info
+    res = F.compile_and_run(text, twotype_driver(case, cg, text), sanitize=True)
+    info["compiled"] = res["compile_ok"]
+    if not res["compile_ok"]:
+        info["skip"] = "does not compile: " + res["compile_out"][-200:]
+        return None, info
+    msg = scan_result(res)
+    if msg is None and "DONE" not in res["stdout"]:
+        msg = "driver did not reach its end: %s" % res["stdout"][-100:]
+    return msg, info
+
+
+def twotype_shard(ctx, n):
+    def body(case):
+        msg, info = check_twotype(case)
+        if "skip" in info:
+            ctx.count("twotype skipped")
+            ctx.count("twotype skipped: " + info["skip"].split(":")[0][:40])
+            ctx.note(case, False, ["twotype_skipped"])
+            return
+        kinds_ = {op[0] for op in _tt_walk(case["body"])}
+        classes = ["twotype_run", "twotype_nested_first" if case["nested"] < case["plain"] else "twotype_plain_first"]
+        classes += ["twotype_has_" + k for k in sorted(kinds_)]
+        ctx.note(case, "call" in kinds_ or "move" in kinds_ or "lin" in kinds_, classes)
+        if msg is not None:
+            ctx.fail("twotype", case, msg, sig="twotype " + sig_of(msg))
+
+    hyp_explore(ctx, twotype_cases(), body, n, "twotype")
+
+
+def _tt_walk(ops):
+    for op in ops:
+        yield op
+        if op[0] == "if":
+            yield from _tt_walk(op[2])
+            if op[3]:
+                yield from _tt_walk(op[3])
+
+
 def sig_of(msg):
     import re
     head = msg.split(":")[0]
@@ -136,10 +383,14 @@ def sig_of(msg):
 
 
 def replay(sub, case):
+    if sub == "twotype":
+        return check_twotype(case)[0]
     return check_case(case)[0]
 
 
 def shrink(sub, case):
+    if sub == "twotype":
+        return shrink_twotype(case)
     from checks.c01 import shrink_method_case
     c = {"method": case["method"], "plan": {"max_steps": case["steps"]}}
 
@@ -147,6 +398,41 @@ def shrink(sub, case):
         return check_case({"method": cc["method"], "steps": cc["plan"]["max_steps"]})[0]
     out = shrink_method_case(c, failing, sig_of, budget=30)
     return {"method": out["method"], "steps": out["plan"]["max_steps"]}
+
+
+def shrink_twotype(case):
+    import copy
+    msg = check_twotype(case)[0]
+    if msg is None:
+        return case
+    sig = sig_of(msg)
+    budget = [25]
+
+    def still(c):
+        if budget[0] <= 0:
+            return False
+        budget[0] -= 1
+        try:
+            m = check_twotype(c)[0]
+        except Exception:
+            return False
+        return m is not None and sig_of(m) == sig
+    changed = True
+    while changed and budget[0] > 0:
+        changed = False
+        for i in reversed(range(len(case["body"]))):
+            c = copy.deepcopy(case)
+            del c["body"][i]
+            if still(c):
+                case, changed = c, True
+                break
+            if case["body"][i][0] == "if":
+                c = copy.deepcopy(case)
+                c["body"][i:i + 1] = c["body"][i][2]
+                if still(c):
+                    case, changed = c, True
+                    break
+    return case
 
 
 def shard(ctx, n):
@@ -187,5 +473,7 @@ def run(ctx):
         raise HarnessError("LeakSanitizer self-test failed: an intentionally leaking program is not reported")
     if ctx.quick:
         ctx.parallel(shard, 16, 12)
+        ctx.parallel(twotype_shard, 16, 4)
     else:
         ctx.parallel(shard, 16, 400)
+        ctx.parallel(twotype_shard, 16, 150)
